@@ -143,9 +143,37 @@ def _last_seg(defname):
     return defname.rsplit("::", 1)[-1]
 
 
-_G1 = re.compile(r"::<[^<>]*>")
-_G2 = re.compile(r"(\w)<[^<>]*>")
 _SHORT = {}
+
+
+def _strip_generics(p):
+    """remove generic argument lists `::<..>` and `Name<..>` (bracket-aware); keep a leading `<T as Trait>`"""
+    out = []
+    i = 0
+    n = len(p)
+    while i < n:
+        ch = p[i]
+        if ch == "<":
+            prev = out[-1] if out else ""
+            is_generic = bool(out) and (prev.isalnum() or prev == "_" or prev == ":" or prev == "]")
+            if is_generic and not (len(out) >= 1 and "".join(out[-3:]).endswith(" as")):
+                depth = 0
+                while i < n:
+                    if p[i] == "<":
+                        depth += 1
+                    elif p[i] == ">" and (i == 0 or p[i - 1] != "-"):
+                        depth -= 1
+                        if depth == 0:
+                            break
+                    i += 1
+                i += 1
+                # drop a trailing `::` left from turbofish `::<..>`
+                if out[-2:] == [":", ":"] and (i >= n or p[i:i + 2] != "::"):
+                    pass
+                continue
+        out.append(ch)
+        i += 1
+    return "".join(out).replace("::::", "::")
 
 
 def short_name(pretty):
@@ -155,26 +183,49 @@ def short_name(pretty):
     if r is not None:
         return r
     p = pretty
-    while True:
-        q = _G1.sub("", p)
-        q = _G2.sub(r"\1", q)
-        if q == p:
-            break
-        p = q
-    if p.startswith("<") and " as " in p and ">::" in p:
-        inner, _, rest = p[1:].partition(">::")
-        a, _, b = inner.partition(" as ")
-        a = a.strip()
-        pre = ""
-        while a.startswith("&"):
-            pre += "&"
-            a = a[1:].lstrip()
-            if a.startswith("mut "):
-                pre += "mut "
-                a = a[4:]
-        r = f"<{pre}{a.rsplit('::', 1)[-1]} as {b.rsplit('::', 1)[-1]}>::{rest}"
+    if p.startswith("<"):
+        # qualified form: find the matching '>' of the leading '<'
+        depth = 0
+        end = -1
+        for i, ch in enumerate(p):
+            if ch == "<":
+                depth += 1
+            elif ch == ">" and p[i - 1] != "-":
+                depth -= 1
+                if depth == 0:
+                    end = i
+                    break
+        inner = p[1:end]
+        rest = p[end + 1:]
+        rest = _strip_generics(rest).lstrip(":")
+        # split inner at top-level " as "
+        depth = 0
+        cut = -1
+        for i, ch in enumerate(inner):
+            if ch == "<":
+                depth += 1
+            elif ch == ">" and inner[i - 1] != "-":
+                depth -= 1
+            elif depth == 0 and inner.startswith(" as ", i):
+                cut = i
+                break
+        if cut >= 0:
+            a = _strip_generics(inner[:cut]).strip()
+            b = _strip_generics(inner[cut + 4:]).strip()
+            pre = ""
+            while a.startswith("&"):
+                pre += "&"
+                a = a[1:].lstrip()
+                if a.startswith("mut "):
+                    pre += "mut "
+                    a = a[4:]
+            r = f"<{pre}{a.rsplit('::', 1)[-1]} as {b.rsplit('::', 1)[-1]}>::{rest}"
+        else:
+            a = _strip_generics(inner).strip()
+            r = f"{a.rsplit('::', 1)[-1]}::{rest}"
     else:
-        segs = p.split("::")
+        q = _strip_generics(p)
+        segs = [x for x in q.split("::") if x]
         r = "::".join(segs[-2:])
     _SHORT[pretty] = r
     return r
@@ -306,8 +357,15 @@ class Call:
         return self._short
 
     def is_(self, *names):
+        """match the short name; `Trait::method` also matches the qualified form `<X as Trait>::method`"""
         s = self.short
-        return any(s == n or s.endswith("::" + n) for n in names)
+        alt = None
+        if s.startswith("<") and " as " in s and ">::" in s:
+            alt = s[s.index(" as ") + 4:].replace(">::", "::", 1)
+        for n in names:
+            if s == n or s.endswith("::" + n) or (alt is not None and (alt == n or alt.endswith("::" + n))):
+                return True
+        return False
 
     def ga_str(self, i=0):
         return self.fn.crate.tstr(self.ga[i]) if i < len(self.ga) else None
